@@ -392,6 +392,14 @@ pub fn exec_more(t: &[&str]) -> R {
             claims_dec(esc, t.get(2).ok_or_else(bad)?)
         }
         "claims.enc" => claims_enc(t.get(1).ok_or_else(bad)?),
+        // the JSON text `RegisteredClaims::encode` writes, byte for byte (compared with the model's `claimsJson`)
+        "claims.json" => {
+            use paseto_core::encodings::Payload;
+            let c = parse_claims(t.get(1).ok_or_else(bad)?).ok_or("bad-op")?;
+            let mut out = Vec::new();
+            c.encode(&mut out).map_err(|_| "payload".to_string())?;
+            Ok(hex(&out))
+        }
         // oracle-only: the `Json<T>` wrapper as payload and as footer against plain serde_json on the same bytes
         "o.json" => {
             use paseto_core::encodings::{Footer, Payload};
